@@ -102,6 +102,52 @@ theorem fact_verify_vp_chain :
        "checkSignature = len(current.Proof) > 0", "err = vcVerifier.Verify(current,allowUntrustedVCs,checkSignature,validAt)",
        "if err != nil", "return nil,newVerificationError(\"invalid VC (id=%s): %w\",current.ID,err)"] := by decide
 
+/-! ## end to end over histories -/
+
+/-- the node's store holds the revocation at every later point of the history -/
+theorem credRevoked_after_register (E : Env) (K : KeyEnv) (hE : EnvOK E) (w0 : World) (h0 : WInv E w0) (i : Bool)
+    (r : Revocation) (before after : List Act) (n' : Node)
+    (hacc : registerRevocation K ((run E K w0 before).get i) r = .ok n') (c : Cred) (hc : c.id = some r.subject) :
+    ((run E K w0 (before ++ [.register i r] ++ after)).get i).credRevoked c = true ∧
+    WInv E (run E K w0 (before ++ [.register i r] ++ after)) := by
+  have hw1 := ((run_path (K := K) hE before h0).nodes h0).1
+  have hrun : run E K w0 (before ++ [.register i r] ++ after) = run E K ((run E K w0 before).set i n') after := by
+    simp only [run, List.foldl_append, List.foldl_cons, List.foldl_nil, step]
+    rw [show registerRevocation K ((List.foldl (step E K) w0 before).get i) r = .ok n' from hacc]
+  have hp : WPrim E K (run E K w0 before) ((run E K w0 before).set i n') := WPrim.register _ i r n' hacc
+  have hmem : r ∈ (((run E K w0 before).set i n').get i).netRevs := by
+    rw [get_set_same]
+    obtain ⟨rfl, _⟩ := registerRevocation_ok hacc
+    simp
+  have hfin := (run_path (K := K) hE after (hp.nodes hw1).1).nodes (hp.nodes hw1).1
+  have := (hfin.2 i).net r hmem
+  rw [← hrun] at this hfin
+  refine ⟨?_, hfin.1⟩
+  simp only [Node.credRevoked, hc, Node.isRevoked, List.any_eq_true]; exact ⟨r, this, by simp⟩
+
+/-- `search_after_revocation_in_history`: once a revocation was accepted at some point of a history, no later `Search` — any
+    found documents, any order, allowUntrusted or not, any resolveTime — returns a credential with the revoked id. -/
+theorem search_after_revocation_in_history (E : Env) (K : KeyEnv) (hE : EnvOK E) (w0 : World) (h0 : WInv E w0) (i : Bool)
+    (r : Revocation) (before after : List Act) (n' : Node)
+    (hacc : registerRevocation K ((run E K w0 before).get i) r = .ok n')
+    (docs : List Stored) (au : Bool) (resolveTime : Option Int) (now : Int) :
+    ∀ s, s ∈ (search E i (run E K w0 (before ++ [.register i r] ++ after)) docs au false resolveTime now).1 → s.cred.id ≠ some r.subject := by
+  intro s hs hid
+  obtain ⟨hrev, hw⟩ := credRevoked_after_register E K hE w0 h0 i r before after n' hacc s.cred hid
+  have := (search_omits_revoked E K hE i au false resolveTime now docs _ hw).1 s hs
+  rw [hrev] at this; exact absurd this (by simp)
+
+/-- `vp_after_revocation_in_history`: … and every later `VerifyVP(verifyVCs = true)` of a presentation that contains a credential
+    with the revoked id — at any position, for any validAt, holder, signature verdicts — is refused. -/
+theorem vp_after_revocation_in_history (E : Env) (K : KeyEnv) (hE : EnvOK E) (w0 : World) (h0 : WInv E w0) (i : Bool)
+    (r : Revocation) (before after : List Act) (n' : Node)
+    (hacc : registerRevocation K ((run E K w0 before).get i) r = .ok n')
+    (signer : String) (holder : Option String) (vpSigOk au : Bool) (validAt : Option Int) (now : Int) (creds : List VPCred)
+    (c : VPCred) (hc : c ∈ creds) (hid : c.doc.cred.id = some r.subject) :
+    (doVerifyVP E i (run E K w0 (before ++ [.register i r] ++ after)) signer holder vpSigOk true au validAt now creds).1 ≠ .ok := by
+  obtain ⟨hrev, hw⟩ := credRevoked_after_register E K hE w0 h0 i r before after n' hacc c.doc.cred hid
+  exact vp_with_revoked_credential_refused E K hE i _ hw signer holder vpSigOk au validAt now creds c hc hrev
+
 /-! non-vacuity -/
 def exVPCred (id : String) : VPCred :=
   { doc := { cred := { id := some id, issuer := "did:nuts:B", statuses := none } }, subject := "did:nuts:P" }
